@@ -73,14 +73,27 @@ var $callDeferred = (deferred, jsErr, fromPanic) => {
                     deferred = null;
                     continue;
                 }
-                if ($curGoroutine.exit && !fromPanic) {
+                if ($curGoroutine.exit && !fromPanic && !$curGoroutine.exitDeferred) {
                     /* runtime.Goexit() is unwinding the goroutine: after this frame's deferred
                        calls ran, keep unwinding instead of returning to the caller. */
                     throw null;
                 }
                 return;
             }
-            var r = call[0].apply(call[2], call[1]);
+            /* The functions called by a deferred call that runs during the unwinding
+               are not unwound themselves: they return to their callers. */
+            var exitUnwinding = $curGoroutine.exit && !fromPanic && !$curGoroutine.exitDeferred;
+            var r;
+            if (exitUnwinding) {
+                $curGoroutine.exitDeferred = true;
+                try {
+                    r = call[0].apply(call[2], call[1]);
+                } finally {
+                    $curGoroutine.exitDeferred = false;
+                }
+            } else {
+                r = call[0].apply(call[2], call[1]);
+            }
             if (r && r.$blk !== undefined) {
                 deferred.push([r.$blk, [], r]);
                 if (fromPanic) {
